@@ -91,7 +91,8 @@ def fingerprint(part, with_segments=None):
             for o in oo:
                 out.append((p.t, cls.__name__, getattr(o, "id", None), o.end.t if o.end is not None else None,
                             getattr(getattr(o, "tie_next", None), "id", None), getattr(getattr(o, "tie_prev", None), "id", None),
-                            p.prev.t if p.prev is not None else None, p.next.t if p.next is not None else None))
+                            p.prev.t if p.prev is not None else None, p.next.t if p.next is not None else None,
+                            tuple(len(getattr(o, a, None) or []) for a in ("slur_starts", "slur_stops", "tuplet_starts", "tuplet_stops"))))
     return out
 
 
